@@ -1,6 +1,7 @@
 package checks
 
 import (
+	"crypto/sha256"
 	"encoding/hex"
 	"encoding/json"
 	"fmt"
@@ -157,6 +158,72 @@ func fileMaxima(f IFile, key int) Prior {
 		}
 	}
 	return p
+}
+
+// c10Many imports files with hundreds of keys (one of them with blocks only, so that the number of records is odd with
+// respect to any even-sized buffer) and reads back the record of every key: each must hold what the file states.
+func c10Many(run *ev.Run, sizes []int) (int, error) {
+	checked := 0
+	for _, n := range sizes {
+		root := rig.Scratch("c10many")
+		w, err := NewSigWorkerOn(filepath.Join(root, "storage"), 2)
+		if err != nil {
+			os.RemoveAll(root)
+			return checked, err
+		}
+		f := IFile{Name: fmt.Sprintf("many:%d-keys", n), Meta: "ok"}
+		var keys [][]byte
+		for i := 0; i < n; i++ {
+			k := make([]byte, 48)
+			h := sha256.Sum256([]byte(fmt.Sprintf("c10-many-%d-%d", n, i)))
+			copy(k, h[:])
+			copy(k[32:], h[:16])
+			keys = append(keys, k)
+			e := IEntry{Key: -1, RawKey: "0x" + hex.EncodeToString(k), Blocks: []string{fmt.Sprint(100 + i)}}
+			if i != 0 {
+				e.Atts = [][2]string{{fmt.Sprint(10 + i), fmt.Sprint(20 + i)}}
+			}
+			f.Entries = append(f.Entries, e)
+		}
+		if err := w.Rig.StopStore(); err != nil {
+			w.Close()
+			os.RemoveAll(root)
+			return checked, err
+		}
+		file := filepath.Join(root, "many.json")
+		_ = os.WriteFile(file, f.render(nil), 0o600)
+		code, _, se, err := rig.CLI(w.Rig.Dir, "--import-slashing-protection", "--genesis-validators-root", rig.GVR, "--slashing-protection-file", file)
+		if err == nil {
+			err = w.Rig.StartStore()
+		}
+		if err != nil {
+			w.Close()
+			os.RemoveAll(root)
+			return checked, err
+		}
+		if code == 0 {
+			for i, k := range keys {
+				checked++
+				_, slot, _ := w.Rig.PropRecord(k)
+				_, as, at, _ := w.Rig.AttRecord(k)
+				wantS, wantT := int64(10+i), int64(20+i)
+				if i == 0 {
+					wantS, wantT = -1, -1
+				}
+				if slot < int64(100+i) || as < wantS || at < wantT {
+					run.Violate(fmt.Sprintf("many-keys-unprotected:n=%d", n),
+						fmt.Sprintf("import of %d keys reported success; the file states slot %d, attestation %d->%d for key #%d, the store holds slot %d, attestation %d->%d", n, 100+i, wantS, wantT, i, slot, as, at),
+						map[string]any{"check": "C10", "many_keys": n, "key_index": i})
+					break
+				}
+			}
+		} else {
+			run.Violate(fmt.Sprintf("many-keys-refused:n=%d", n), fmt.Sprintf("import of a well-formed file with %d keys failed (exit %d): %s", n, code, firstWords(se, 30)), map[string]any{"check": "C10", "many_keys": n})
+		}
+		w.Close()
+		os.RemoveAll(root)
+	}
+	return checked, nil
 }
 
 func c10Files(tier string) []IFile {
@@ -467,21 +534,31 @@ func C10(tier string) int {
 		run.HarnessErr = firstErr
 		return run.Finish()
 	}
+	manySizes := []int{129, 300}
+	if tier == "thorough" {
+		manySizes = []int{65, 128, 129, 257, 513, 1025, 2000}
+	}
+	manyChecked, err := c10Many(run, manySizes)
+	if err != nil {
+		run.HarnessErr = err
+		return run.Finish()
+	}
 	run.Coverage = map[string]any{
-		"cells_with_a_failing_write":    failing,
-		"states":                        len(priors) * 1,
-		"transitions":                   done,
-		"traces_validated_against_impl": done,
-		"evaluations":                   done,
-		"distinct_nontrivial":           len(cells),
-		"rule":                          "each cell = prior per-key history made by real signing x one or two interchange files (for files with blocks and attestations for a key also with the n-th record write failing, n = 1..4, injected through the hook of the real binary; incl. files whose values are the lowest legal ones: slot 0, attestation 0->0, source 0) imported by the real `dirk --import-slashing-protection` binary built from the tree; afterwards the store is reopened and probed: every proposal at or below the highest own/file slot and every attestation at or below the highest own/file target or below the highest own/file source must be refused; no decoded record may decrease; wrong metadata must give a non-zero exit and unchanged records",
-		"samples":                       samples.List(),
-		"exhaustive":                    !capped,
-		"prior_states":                  len(priors),
-		"files":                         len(files),
-		"cells":                         len(cells),
-		"cells_done":                    done,
-		"exit_code_vectors":             outcomes,
+		"keys_read_back_after_large_imports": manyChecked,
+		"cells_with_a_failing_write":         failing,
+		"states":                             len(priors) * 1,
+		"transitions":                        done,
+		"traces_validated_against_impl":      done,
+		"evaluations":                        done,
+		"distinct_nontrivial":                len(cells),
+		"rule":                               "each cell = prior per-key history made by real signing x one or two interchange files (plus files with hundreds of keys, after which the record of every key is read back; for files with blocks and attestations for a key also with the n-th record write failing, n = 1..4, injected through the hook of the real binary; incl. files whose values are the lowest legal ones: slot 0, attestation 0->0, source 0) imported by the real `dirk --import-slashing-protection` binary built from the tree; afterwards the store is reopened and probed: every proposal at or below the highest own/file slot and every attestation at or below the highest own/file target or below the highest own/file source must be refused; no decoded record may decrease; wrong metadata must give a non-zero exit and unchanged records",
+		"samples":                            samples.List(),
+		"exhaustive":                         !capped,
+		"prior_states":                       len(priors),
+		"files":                              len(files),
+		"cells":                              len(cells),
+		"cells_done":                         done,
+		"exit_code_vectors":                  outcomes,
 	}
 	run.Assumptions = []string{"slot/epoch values outside the alphabet behave like their neighbours", "negative numbers in a file constrain nothing"}
 	return run.Finish()
